@@ -3538,6 +3538,53 @@ def _check_node_safe_to_remove(
             )
 
 
+def _check_graph_arguments(
+    inputs: Sequence[Value],
+    outputs: Sequence[Value],
+    initializers: Sequence[Value],
+    nodes: Sequence[Node],
+) -> None:
+    """Raise if a new Graph cannot take ownership of the given values and nodes.
+
+    The checks are those the graph containers and ``Graph.extend`` perform, in the same
+    order, without modifying anything.
+    """
+    for value in inputs:
+        if value._graph is not None:  # pylint: disable=protected-access
+            raise ValueError(
+                f"Value '{value}' is already owned by a different graph. Please remove the value from the previous graph first"
+            )
+        if value.producer() is not None:
+            raise ValueError(
+                f"Value '{value}' is produced by a node and cannot be an input to the graph. Please create new Values for graph inputs"
+            )
+    for value in outputs:
+        if value._graph is not None:  # pylint: disable=protected-access
+            raise ValueError(
+                f"Value '{value}' is already an output of a different graph. Please remove the value from the previous graph first"
+            )
+    initializers_by_name = {initializer.name: initializer for initializer in initializers}
+    for value in initializers_by_name.values():
+        if value._graph is not None:  # pylint: disable=protected-access
+            raise ValueError(
+                f"Value '{value}' is already an initializer of a different graph. Please remove the value from the previous graph first"
+            )
+    for name, value in initializers_by_name.items():
+        if not isinstance(name, str):
+            raise TypeError(f"Value name must be a string, not {type(name)}")
+        if name == "":
+            raise ValueError("Value name cannot be an empty string")
+        if value.producer() is not None:
+            raise ValueError(
+                f"Value '{value}' is produced by a node and cannot be a graph initializer"
+            )
+    for node in nodes:
+        if node.graph is not None:
+            raise ValueError(
+                f"The node '{node!r}' belongs to another graph. Please remove it first with Graph.remove()."
+            )
+
+
 class Graph(_protocols.GraphProtocol, Sequence[Node], _display.PrettyPrintable):
     """IR Graph.
 
@@ -3590,6 +3637,14 @@ class Graph(_protocols.GraphProtocol, Sequence[Node], _display.PrettyPrintable):
         metadata_props: dict[str, str] | None = None,
     ):
         self.name = name
+
+        # Validate every argument before taking ownership of any value or node, so that a
+        # rejected call leaves all of them untouched
+        inputs = tuple(inputs)
+        outputs = tuple(outputs)
+        initializers = tuple(initializers)
+        nodes = tuple(nodes)
+        _check_graph_arguments(inputs, outputs, initializers, nodes)
 
         # Private fields that are not to be accessed by any other classes
         self._inputs = _graph_containers.GraphInputs(self, inputs)
